@@ -142,7 +142,10 @@ def fortran_get_code(line):
         _gen["g"] = fc.make_generator()
     g = _gen["g"]
     g.module_emitter = types.SimpleNamespace(preamble=[], code=[line])
-    return g.get_code().split("\n")
+    lines = g.get_code().split("\n")
+    while lines and lines[-1] == "":        # whether the text ends in a newline is not the wrapper's business
+        lines.pop()
+    return lines
 
 
 def exhaustive(tier):
@@ -208,13 +211,19 @@ def oracle(case, out):
     lang = case["lang"]
     if lang == "python-emit":
         lines = out.get("ok", [])
-        # the bodies of the phase functions: what _emit produces line by line (docstrings and templates are fixed text)
-        inside = False
+        # every line of code of the module (whatever the generated functions are called); lines inside multi-line
+        # string literals (licence text, docstrings) are fixed text that never went through the wrapper
+        import io
+        import tokenize
+        in_string = set()
+        try:
+            for tok in tokenize.generate_tokens(io.StringIO("\n".join(lines) + "\n").readline):
+                if tok.type == tokenize.STRING and tok.end[0] > tok.start[0]:
+                    in_string.update(range(tok.start[0], tok.end[0] + 1))
+        except (tokenize.TokenError, IndentationError, SyntaxError):
+            pass        # reported by ast.parse below
         for k, ln in enumerate(lines):
-            if ln.lstrip().startswith("def "):
-                inside = ln.lstrip().startswith("def phase_")
-                continue
-            if not inside:
+            if k + 1 in in_string:
                 continue
             body = ln[:-1] if ln.endswith("\\") else ln
             toks = ref_tokens(body, "python")
